@@ -1,6 +1,7 @@
 /- Property C11: the property theorems (and nothing else). -/
 import Frugal.Proofs.SizeExact
 import Frugal.Proofs.ReaderProps
+import Frugal.Proofs.SecondHop
 import Frugal.Props.Instances
 namespace Frugal.C11
 open Frugal
@@ -16,6 +17,56 @@ theorem holder_is_unknown_bytes (S : Schema) (total fuel : Nat) (sd : SDesc) (fs
     (h : readFields Generated.params S total fuel sd fs tail { fs := vs } = .ok st') :
     st'.unk = unknownBytes sd fs :=
   holder_content _ S total fuel sd fs tail vs st' hh h
+
+/-- … and those bytes are the serialisation of the unrecognised fields themselves: a field of the
+    message is kept exactly when the schema does not recognise it (unknown id, or known id with another
+    wire type), unchanged, and in message order -/
+theorem holder_is_serialisation (sd : SDesc) (fs : List (Nat × TVal)) :
+    unknownBytes sd fs = serFields (unknownOnly sd fs) ∧
+    (unknownOnly sd fs).Sublist fs ∧
+    ∀ id v, (id, v) ∈ unknownOnly sd fs ↔ ((id, v) ∈ fs ∧ (lookupKnown sd id v.tag).isNone = true) :=
+  ⟨unknownBytes_eq_ser sd fs, unknownOnly_sublist sd fs, fun id v => mem_unknownOnly sd id v fs⟩
+
+/-- second hop: what the intermediary writes for a struct whose holder was filled from the message
+    `fs` is the serialisation of a struct carrying the recognised fields as its own schema writes them
+    followed by every unrecognised field of `fs`, unchanged and in message order — so a reader with
+    the newer schema (C03: any reader of these bytes is the reference reader on this field list)
+    sees them all.  `noHolderList`: the field values themselves carry no retained bytes; a nested
+    struct with retained bytes re-emits them by the same theorem one level down (`holder_reemitted`). -/
+theorem second_hop_keeps_unknown (S : Schema) (hS : S.ok = true) (sid : Nat) (vs : List Val)
+    (fs : List (Nat × TVal)) (ht : hasTyFields S (S.get sid).fields vs = true) (hn : noHolderList vs = true) :
+    refEnc S (.strct sid) (.st vs (unknownBytes (S.get sid) fs)) =
+      ser (.strct (toWireFields S (S.get sid) (S.get sid).fields vs ++ unknownOnly (S.get sid) fs)) :=
+  reencode_known_then_unknown S hS sid vs fs ht hn
+
+/-- the recognised fields are decoded as if the unknown ones were not there: whenever a message is
+    read successfully, the same message without its unrecognised fields — wherever it sits in a
+    buffer, whatever the provenance of the destination's strings — is read successfully to the same
+    field values and the same presence record, with or without the holder.  "The same" up to the
+    buffer offsets that `nocopy` views record (`eraseList` forgets them: the two messages are different
+    byte strings, so a view's offset differs while its bytes do not); `hdf`: declared defaults are not
+    views (as in C14). -/
+theorem recognised_as_if_alone (S : Schema) (total total' fuel : Nat) (sd : SDesc)
+    (hdf : ∀ sid, ∀ f ∈ (S.get sid).fields, ∀ d, f.dflt = some d → plain d = true)
+    (fs : List (Nat × TVal)) (tail tail' : Nat) (vs vs' : List Val) (st' : LoopSt)
+    (hd : eraseList vs = eraseList vs')
+    (h : readFields Generated.params S total fuel sd fs tail { fs := vs } = .ok st') :
+    ∃ st'', readFields Generated.params S total' fuel sd (knownOnly sd fs) tail' { fs := vs' } = .ok st'' ∧
+      eraseList st''.fs = eraseList st'.fs ∧ st''.seen = st'.seen ∧ st''.unk = [] :=
+  readFields_knownOnly_erase _ S total total' fuel sd hdf fs tail tail' { fs := vs } { fs := vs' } st' hd rfl h
+
+/-- … and exactly the same values when the schema has no `nocopy` field -/
+theorem recognised_as_if_alone_exact (S : Schema) (total total' fuel : Nat) (sd : SDesc)
+    (hS : ∀ sid, ∀ f ∈ (S.get sid).fields, f.nocopy = false) (hsd : ∀ g ∈ sd.fields, g.nocopy = false)
+    (fs : List (Nat × TVal)) (tail tail' : Nat) (vs : List Val) (st' : LoopSt)
+    (h : readFields Generated.params S total fuel sd fs tail { fs := vs } = .ok st') :
+    ∃ st'', readFields Generated.params S total' fuel sd (knownOnly sd fs) tail' { fs := vs } = .ok st'' ∧
+      st''.fs = st'.fs ∧ st''.seen = st'.seen ∧ st''.unk = [] :=
+  readFields_knownOnly _ S total total' fuel sd hS hsd fs tail tail' _ _ st' rfl rfl h
+
+/-- the message without its unrecognised fields: the recognised ones, unchanged and in order -/
+theorem knownOnly_is (sd : SDesc) (fs : List (Nat × TVal)) : (knownOnly sd fs).Sublist fs :=
+  knownOnly_sublist sd fs
 
 /-- types without the holder drop them -/
 theorem no_holder_drops (S : Schema) (total fuel : Nat) (sd : SDesc) (fs : List (Nat × TVal))
